@@ -110,7 +110,9 @@ class Cluster:
             self.events = []
             # Manage each cluster
             for c in self.cl:
-                if not self._clusters[c]['ingest']['status']:
+                # Another ingest may still be running when one finishes
+                if (not self._clusters[c]['ingest']['status']
+                        and not self._clusters[c]['resources']['ingest']):
                     self._clusters[c]['usage_data']['ingest'] = 0
                     self._clusters[c]['ingest']['demand'] = 0
             yield self.env.timeout(TIMESTEP)
